@@ -30,6 +30,7 @@ MODELS = {
  'C09': 'Batcher.tla with CancelCaller (witness W_D4 = the pre-repair behaviour) + BatcherConform.tla',
  'C10': 'Batcher.tla (sizes, concurrency, FIFO, share, deadline as invariants) + BatcherConform.tla',
  'C11': 'Batcher.tla (retention 0 and 3 ticks) + BatcherConform.tla',
+ 'C14': 'Cache.tla with Evict (the caller-supplied mapping drops the entry at any moment: own-outcome and single-flight invariants still hold)',
  'C16': 'IterBridge.tla (failure at every position; witnesses = seeded changes) + IterBridgeConform.tla',
  'C17': 'CrossLoop.tla (double-checked lock creation, temporary vs permanent runners; witness W_D7 = known finding; inductive invariant Apa_CrossLoop.tla discharged by Apalache; CrossLoopConform.tla binds it to recorded executions)',
 }
